@@ -128,3 +128,15 @@ claim(
     "KS alarms at p < 5e-13; tabulated conditional within 3e-3 of the peak; log-normal sigma <= 0.5; x within 1e-12 of 1 excluded from the transform check.",
     "Hypothesis PBT with exact-CDF KS tests and line-evaluation oracle",
 )
+claim(
+    "C15",
+    "Model-based generation of histories: sequences of advance(m) / take_step over every sampler class (m in {0, 1..99, 100, 101..350}, "
+    "ensemble iterations incl. 0 as the first call, with bounds / limits / temperatures / mass settings) against an integer model of the "
+    "length, comparing chain_length and the sizes of all read-outs after every operation; ChainPool against serially advanced deep copies "
+    "(bit for bit, pools of 1-4 mixed chains, quiet and verbose); timed runs under a virtual clock owned by the harness (step cost 1e-6..1e3 s, "
+    "budgets up to 10 h, minutes/hours/days arguments): returns, deadline reached, >=1 step, no livelock (1000 clock reads without a step), "
+    "bounded overshoot, consistent lengths.",
+    "Liveness is decided as bounded facts under the virtual clock; PcaChain needs >= 2 parameters; one open known finding "
+    "(EnsembleSampler.run_for has no take_step).",
+    "Hypothesis model-based histories + virtual clock + differential (pool vs serial)",
+)
